@@ -590,6 +590,56 @@ Proof.
   - do 2 eexists. repeat split; try reflexivity. cbn. discriminate.
 Qed.
 
+(* ------------------------------------------------------------------ [clean] reflects the inductive [Remains] *)
+Lemma forallb_false {A} (f : A -> bool) l : forallb f l = false <-> exists x, In x l /\ f x = false.
+Proof.
+  induction l as [|y l IH]; cbn.
+  - split; [discriminate|]. intros [x [[] _]].
+  - rewrite andb_false_iff, IH. split.
+    + intros [H|[x [Hin H]]]; [exists y; auto|exists x; auto].
+    + intros [x [[->|Hin] H]]; [now left|right; eauto].
+Qed.
+Lemma remains_clean_both reg :
+  (forall t, clean reg t = false <-> Remains reg t) /\ (forall a, clean_arg reg a = false <-> RemainsArg reg a).
+Proof.
+  unfold clean, clean_arg. apply ty_both_ind; intros;
+    try (split; [cbn; discriminate|intros Hr; inversion Hr]).
+  - rewrite everywhere_sum. cbn [unresolvable_here andb]. split.
+    + intros Hc. apply forallb_false in Hc as [row [Hrow Hc]]. apply forallb_false in Hc as [t [Ht Hc]].
+      rewrite Forall_forall in H. specialize (H _ Hrow). rewrite Forall_forall in H.
+      eapply RmSum; eauto. now apply H.
+    + intros Hr. inversion Hr as [| ? row t Hrow Ht Hrem | | | | | |]; subst.
+      rewrite Forall_forall in H. specialize (H _ Hrow). rewrite Forall_forall in H.
+      apply forallb_false. exists row. split; [exact Hrow|]. apply forallb_false. exists t. split; [exact Ht|].
+      now apply H.
+  - rewrite everywhere_func. cbn [unresolvable_here andb]. rewrite andb_false_iff, !forallb_false.
+    rewrite Forall_forall in H, H0. split.
+    + intros [[t [Ht Hc]]|[t [Ht Hc]]]; [eapply RmFuncIn|eapply RmFuncOut]; eauto; [now apply H|now apply H0].
+    + intros Hr. inversion Hr; subst; [left|right]; eexists; split; eauto; [now apply H|now apply H0].
+  - rewrite everywhere_poly. cbn [unresolvable_here andb]. rewrite andb_false_iff, !forallb_false.
+    rewrite Forall_forall in H, H0. split.
+    + intros [[t [Ht Hc]]|[t [Ht Hc]]]; [eapply RmPolyIn|eapply RmPolyOut]; eauto; [now apply H|now apply H0].
+    + intros Hr. inversion Hr; subst; [left|right]; eexists; split; eauto; [now apply H|now apply H0].
+  - rewrite everywhere_opaque. cbn [unresolvable_here]. rewrite andb_false_iff, negb_false_iff, forallb_false.
+    rewrite Forall_forall in H. split.
+    + intros [Hr|[x [Hx Hc]]]; [apply RmHere; now apply resolvable_ty_b_spec|].
+      eapply RmOpaqueArg; eauto. now apply H.
+    + intros Hr. inversion Hr; subst; [left; now apply resolvable_ty_b_spec|].
+      right. eexists; split; eauto. now apply H.
+  - rewrite everywhere_ext. cbn [unresolvable_here andb]. rewrite forallb_false. rewrite Forall_forall in H. split.
+    + intros [x [Hx Hc]]. eapply RmExtArg; eauto. now apply H.
+    + intros Hr. inversion Hr; subst. eexists; split; eauto. now apply H.
+  - cbn [everywhere_arg]. split; [intros Hc; constructor; now apply H|].
+    intros Hr. inversion Hr; subst. now apply H.
+  - rewrite everywhere_seq, forallb_false. rewrite Forall_forall in H. split.
+    + intros [x [Hx Hc]]. eapply RmSeq; eauto. now apply H.
+    + intros Hr. inversion Hr; subst. eexists; split; eauto. now apply H.
+Qed.
+Lemma no_resolvable_opaque_remains reg t : RegWF reg -> no_ext t = true -> ~ Remains reg (resolve_ty reg t).
+Proof.
+  intros Hwf Hn Hr. apply remains_clean_both in Hr. rewrite (resolve_deep _ _ Hwf Hn) in Hr. discriminate.
+Qed.
+
 (* ------------------------------------------------------------------ the property-level statements *)
 Lemma resolve_exactly_when_defined_thm : forall reg, RegWF reg ->
   (forall e id args b,
